@@ -147,6 +147,18 @@ def z3_query(vars_ranges, constraints, goal_terms, timeout=60):
     lines.append("(check-sat)")
     lines.append("(get-model)")
     txt = "\n".join(lines) + "\n"
+    if txt in _Z3_CACHE:
+        return _Z3_CACHE[txt]
+    res = _z3_run(txt, timeout)
+    if res[0] != "unknown":
+        _Z3_CACHE[txt] = res
+    return res
+
+
+_Z3_CACHE = {}
+
+
+def _z3_run(txt, timeout):
     try:
         r = subprocess.run(["z3", "-in", "-T:%d" % (timeout + 5)], input=txt, capture_output=True, text=True, timeout=timeout + 15)
     except subprocess.TimeoutExpired:
@@ -167,13 +179,14 @@ class GroupDomain(RingDomain):
     """see module docstring"""
 
     def __init__(self, consts=None, extra_leaf=(), obj_contracts=None, named_globals=None, drop_leaf=()):
-        RingDomain.__init__(self, (set(GROUP_TYPES) | {"BigInt<256>", "BigInt<128>", "BigInt<512>", "BigInt<64>", "BigInt<384>", "PowersOfX"} | set(extra_leaf)) - set(drop_leaf),
+        RingDomain.__init__(self, (set(GROUP_TYPES) | {"BigInt<256>", "BigInt<128>", "BigInt<512>", "BigInt<64>", "BigInt<384>", "BigInt<192>", "BigInt<768>", "PowersOfX"} | set(extra_leaf)) - set(drop_leaf),
                             consts=consts, obj_contracts=obj_contracts)
         self.constraints = []        # [(Poly, rel)]
         self.ranges = {}             # scalar symbol -> (lo, hi) : lo <= v < hi
         self.nfresh = 0
         self.named_globals = named_globals or {}
         self.events = []             # abstract calls, in order (ghost trace for schedule / binding obligations)
+        self.prune = False           # prune infeasible scalar branches with z3 (linear conditions)
         self.side = []               # side obligations (oid, status, msg): ranges / no truncation
 
     # ---- leaves ----
@@ -245,6 +258,21 @@ class GroupDomain(RingDomain):
         if p.is_const():
             c = p.const_value()
             return {">=0": c >= 0, "<0": c < 0, "==0": c == 0, "!=0": c != 0}[rel_true]
+        constrained = {v for (c, _) in self.constraints for v in P(c).vars()}
+        if self.prune and p.degree() <= 1 and all(v in constrained for v in p.vars()):
+            # a branch whose condition contradicts the path constraints and the ranges is not explored (z3, linear)
+            feas = []
+            for rel in (rel_true, rel_false):
+                rng = {v: self.ranges.get(v, (0, TWO256)) for v in p.vars()}
+                for (c, _) in self.constraints:
+                    for v in P(c).vars():
+                        rng.setdefault(v, self.ranges.get(v, (0, TWO256)))
+                st, _m = z3_query(rng, self.constraints + [(p, rel)], [], timeout=20)
+                feas.append(st != "unsat")
+            if feas == [True, False] or feas == [False, True]:
+                d = feas[0]
+                self.constraints.append((p, rel_true if d else rel_false))
+                return d
         d = I.path.decide(("scalar", label, repr(p)[:80]), (True, False))
         self.constraints.append((p, rel_true if d else rel_false))
         return d
